@@ -119,6 +119,14 @@ def items(tier):
     out = []
     for sp in deep_nesting_specs():
         out.append((sp, {"rule": "TSLACK", "max_time": 14}))
+    for cap, s0, s1 in ((1.0e10, 4.0e9, 6.0e9 + 3), (1.0e10, 4.0e9, 6.0e9), (1.0, 1.0, 0.0), (1.0, 0.0, 0.0), (0.3, 0.1, 0.2), (0.3, 0.1, 0.2 + 1e-9)):
+        names = ["T0", "T1"]
+        full = {nm: 1.0 for nm in names}
+        big = {"tasks": [{"name": "T0", "work": 3.0, "nf": True}, {"name": "T1", "work": 2.0, "nf": True}], "links": [],
+               "components": [{"name": "C0", "tasks": [0], "space": s0}, {"name": "C1", "tasks": [1], "space": s1}],
+               "workplaces": [{"name": "WP0", "cap": cap, "targets": [0, 1], "facilities": [{"name": "F0", "skills": dict(full)}, {"name": "F1", "skills": dict(full)}]}],
+               "teams": [{"name": "TM0", "targets": [0, 1], "workers": [{"name": "W%d" % i, "skills": dict(full), "fskills": {"F0": 1.0, "F1": 1.0}} for i in range(2)]}]}
+        out.append((big, {"rule": "TSLACK", "max_time": 14}))
     for sp in list(F.fac_specs(tier)) + competing_specs(tier) + F.same_name_workplace_specs() + F.waiting_assembly_specs() + F.ff_held_component_specs() + F.late_placement_specs() + F.sequential_facility_specs():
         out.append((sp, {"rule": "TSLACK", "max_time": F.seq_bound(sp) + 8}))
     return out
